@@ -119,7 +119,12 @@ impl<'r> Gen<'r> {
             0 => self.simple_ty(),
             1 => {
                 let n = 1 + self.rng.below(3);
-                Ty::Tuple((0..n).map(|_| self.value_ty(depth - 1)).collect())
+                if self.rng.chance(1, 4) {
+                    // vectors of floats (the element-wise operators incl. division apply)
+                    Ty::Tuple(vec![Ty::Float; n.max(2)])
+                } else {
+                    Ty::Tuple((0..n).map(|_| self.value_ty(depth - 1)).collect())
+                }
             }
             2 => Ty::List(Box::new(self.value_ty(depth - 1))),
             3 => Ty::Blob(self.rng.below(nb)),
@@ -724,7 +729,16 @@ impl<'r> Gen<'r> {
             },
             Ty::Tuple(ts) => {
                 let numeric = !ts.is_empty() && (ts.iter().all(|t| *t == Ty::Int) || ts.iter().all(|t| *t == Ty::Float));
-                if numeric && self.rng.chance(1, 2) {
+                let all_float = !ts.is_empty() && ts.iter().all(|t| *t == Ty::Float);
+                if all_float && self.rng.chance(1, 4) {
+                    // element-wise division: tuple / tuple and tuple / number (floats keep their type)
+                    self.feat("tuple_division");
+                    if self.rng.chance(1, 2) {
+                        Expr::Bin(BinOp::Div, Box::new(self.expr(ty, d)), Box::new(self.expr(ty, d)))
+                    } else {
+                        Expr::Bin(BinOp::Div, Box::new(self.expr(ty, d)), Box::new(self.expr(&Ty::Float, d)))
+                    }
+                } else if numeric && self.rng.chance(1, 2) {
                     self.feat("tuple_arith");
                     let op = *self.rng.pick(&[BinOp::Add, BinOp::Sub, BinOp::Mul]);
                     Expr::Bin(op, Box::new(self.expr(ty, d)), Box::new(self.expr(ty, d)))
